@@ -133,8 +133,10 @@ def o_union(src, members, parsefrom, data, start):
             if r[0] == 'ok':
                 return 'member %s fails from the start but Union returned a value' % nm
             return None
-        vals[nm] = i[1]
-        ends[nm] = ends[idx] = i[2]
+        if nm is not None:
+            vals[nm] = i[1]
+            ends[nm] = i[2]
+        ends[idx] = i[2]
     if r[0] != 'ok':
         return 'every member parses from the start but Union raised %s' % (r[1:],)
     for nm, v in vals.items():
@@ -210,8 +212,13 @@ def run(tier, seed):
         else:
             k = rng.randint(1, 3)
             ms = [(G._names[j], rng.choice(['Byte', 'Int16ub', 'Int32ul', 'Bytes(3)', 'VarInt', 'Struct("p"/Byte, "q"/Byte)', 'PascalString(Byte, "ascii")'])) for j in range(k)]
-            pf = rng.choice([None, 0, k - 1, ms[0][0], ms[-1][0]])
-            src = 'Union(%r, %s)' % (pf, ', '.join('%r / %s' % m for m in ms))
+            if rng.random() < 0.4:
+                # an anonymous member that consumes bytes, anywhere among the named ones
+                ms.insert(rng.randint(0, len(ms)), (None, rng.choice(['Bytes(2)', 'Byte', 'Padding(3)', 'Int16ub'])))
+                k = len(ms)
+            named = [m[0] for m in ms if m[0] is not None]
+            pf = rng.choice([None, 0, k - 1, named[0], named[-1]])
+            src = 'Union(%r, %s)' % (pf, ', '.join(('%r / %s' % m) if m[0] is not None else m[1] for m in ms))
             for d in datas(rng, [m for _, m in ms], 5):
                 for st in sorted(set([0, rng.randint(0, max(0, len(d)))])):
                     cases.append(dict(src='Sequence(%s, Tell)' % src, op='parse', data=d, start=st))
